@@ -294,7 +294,7 @@ Definition mk_sub (a b : term) : term :=
   | Some x, Some y => TC (arith Sub x y)
   | _, Some y => mk_add a (TC (- y))
   | Some x, None => if x =? 0 then mk_mul b (TC (-1)) else TA Sub a b
-  | None, None => TA Sub a b
+  | None, None => if term_eqb a b then TC 0 else TA Sub a b   (* x - x *)
   end.
 
 (* x o k for And / Or / Xor with a constant k *)
@@ -781,7 +781,8 @@ Proof.
     rewrite mk_mul_sound, (as_const_sound _ _ Ea). cbn [eval arith].
     rewrite wrap32_mul_r. f_equal. lia.
   - apply G; reflexivity.
-  - reflexivity.
+  - destruct (term_eqb a b) eqn:Eab; [|reflexivity].
+    apply term_eqb_eq in Eab. subst b. cbn [eval arith]. rewrite Z.sub_diag. reflexivity.
 Qed.
 
 Lemma comm_arith o x y : match o with And | Or | Xor => True | _ => False end -> arith o x y = arith o y x.
